@@ -21,6 +21,7 @@ RULE = (
     "encoding contains a raw LF/CR; values: bounded-exhaustive grammar (depth<=3, reduced alphabets at depth) over a leaf alphabet with 64-bit boundaries, -0.0, 1e308, "
     "denormals, every C0 control, U+0085/2028/2029, BMP boundary and astral characters, non-ASCII keys, plus Hypothesis recursive values and seeded deep values (100..300 levels, around orjson's 254-level limit) and runs of same-shaped sibling containers encoded one after the other in one process; non-trivial = value contains an int "
     "beyond 2^53, a non-integral float, a control/line-separator/non-ASCII character or null; distinct = distinct value"
+    "; added in rounds 6-7 of the seeded changes: decoding documents nested up to 5,000 levels; reader frame must equal the decoded text; object values as params/result themselves; edge-whitespace / zero-width texts as names and values"
 )
 ASSUMPTIONS = [
     "integers are restricted to the signed/unsigned 64-bit range and floats to finite values (the property's domain); strings are lone-surrogate-free",
